@@ -151,11 +151,13 @@ fn check_validate_seq(rng: &mut Rng, m: &mut Matcher, v: &Vocab, rep: &mut crate
     };
     let mut c = m.deep_clone();
     let mut want = 0;
+    let mut hit_stop = false;
     for &t in &seq {
         // The matcher latches a normal stop as soon as the text is complete and cannot be
         // extended; in that state the only acceptable token is EOS (compute_mask_or_eos says so),
         // so an EOS right after the automatic stop counts as committable and ends the sequence.
         if c.is_stopped() {
+            hit_stop = true;
             if c.stop_reason() == llguidance::api::StopReason::NoExtension && t == v.eos {
                 want += 1;
             }
@@ -170,6 +172,43 @@ fn check_validate_seq(rng: &mut Rng, m: &mut Matcher, v: &Vocab, rep: &mut crate
     rep.inc("validate_seq_checks");
     if got != want {
         return Err(("validate_seq_len".into(), json!({"seq": seq, "validate_tokens": got, "committable": want})));
+    }
+    // the committing counterpart: try_consume_tokens takes exactly the committable prefix and ends in the state that
+    // committing that prefix one by one ends in (compared while no automatic stop intervened)
+    if !hit_stop {
+        let mut d = m.deep_clone();
+        match d.try_consume_tokens(&seq) {
+            Ok(k2) => {
+                rep.inc("try_consume_checks");
+                if k2 != want {
+                    return Err(("try_consume_tokens_len".into(), json!({"seq": seq, "try_consume_tokens": k2, "committable": want})));
+                }
+                // (the one-by-one clone above is in the error state once a token was refused: rebuild the reference
+                // from the accepted prefix only)
+                let mut c = m.deep_clone();
+                for &t in &seq[..want] {
+                    if c.consume_token(t).is_err() {
+                        return Err(("committable_prefix_not_committable_twice".into(), json!({"seq": seq, "committable": want})));
+                    }
+                }
+                if d.is_stopped() != c.is_stopped() {
+                    return Err(("try_consume_tokens_stop_differs".into(), json!({"seq": seq, "taken": k2, "batch_stopped": d.is_stopped(), "one_by_one_stopped": c.is_stopped()})));
+                }
+                if !d.is_stopped() {
+                    let (a, b) = (d.compute_mask(), c.compute_mask());
+                    match (a, b) {
+                        (Ok(a), Ok(b)) => {
+                            if !mask_eq(&a, &b, n) {
+                                return Err(("try_consume_tokens_state_differs".into(), json!({"seq": seq, "taken": k2, "diff": mask_diff(&a, &b, n).into_iter().take(8).collect::<Vec<_>>()})));
+                            }
+                        }
+                        (Err(_), Err(_)) => {}
+                        _ => return Err(("try_consume_tokens_state_differs".into(), json!({"seq": seq, "taken": k2, "one_mask_failed": true}))),
+                    }
+                }
+            }
+            Err(_) => rep.inc("try_consume_errors"),
+        }
     }
     Ok(())
 }
